@@ -89,6 +89,10 @@ def limit_programs():
         out.append(("macro-pingpong%d" % n, [defs, [[S("probe"), Q(S("v")), catch([S("ping"), n])]], [[S("probe"), Q(S("again")), [S("ping"), 1]]]]))
         out.append(("nest-%d" % n, [defs, [[S("probe"), Q(S("v")), catch(nestexpr(n))]], [[S("probe"), Q(S("again")), nestexpr(1)]]]))
         out.append(("uncaught-r%d" % n, [defs, [[S("r"), n]], [[S("probe"), Q(S("again")), [S("r"), 1]]]]))
+    # recursion carried by builtins calling builtins over nested data (foldl -> apply -> foldl ...): two frames per level
+    for n in (1, 2, 3, 5):
+        build = [[S("set"), Q(S("x")), [S("list"), S("+"), 0, [S("list"), 1, 2]]]] + [[S("set"), Q(S("x")), [S("list"), S("apply"), S("foldl"), [S("list"), S("x")]]]] * n + [0]
+        out.append(("builtin-chain%d" % n, [defs, build, [[S("probe"), Q(S("v")), catch([S("apply"), S("foldl"), S("x")])]], [[S("probe"), Q(S("again")), [S("apply"), S("foldl"), S("x")]]]]))
     out.append(("macro-forever", [defs, [[S("probe"), Q(S("v")), catch([S("ping-forever")])]], [[S("probe"), Q(S("again")), [S("cnt"), 1]]]]))
     return out
 
